@@ -81,6 +81,14 @@ def _clone(x):
     return x
 
 
+class CallbackAbort(Exception):
+    """Raised by a harness callback to stop a solver that can no longer terminate sensibly: the memoised array it
+    is about to hand out again was modified by the library, or the call count ran away."""
+
+
+MAX_CB_CALLS = 60000
+
+
 class Args:
     """Factory for caller-side objects under one aliasing pattern."""
 
@@ -164,6 +172,8 @@ class Args:
 
         def call(*a):
             self.n_cb_calls += 1
+            if self.n_cb_calls > MAX_CB_CALLS:
+                raise CallbackAbort(f"callback {name} called more than {MAX_CB_CALLS} times")
             if mode == "fresh":
                 out = fresh(*a)
             elif mode == "arg" and ident is not None:
@@ -174,8 +184,12 @@ class Args:
                     val = fresh(*a)
                     if isinstance(val, np.ndarray) and mode == "cached_ro":
                         val.setflags(write=False)
-                    memo[k] = val
-                out = memo[k]
+                    memo[k] = (val, val.tobytes() if isinstance(val, np.ndarray) else None)
+                out, b0 = memo[k]
+                if b0 is not None and out.tobytes() != b0:
+                    # a corrupted right-hand side can keep an adaptive solver busy for ever: stop here, the
+                    # modification itself is reported from the callback log
+                    raise CallbackAbort(f"the memoised array of callback {name} was modified by the library")
             if isinstance(out, np.ndarray) and id(out) not in self.cb_log and len(self.cb_log) < 20000:
                 self.cb_log[id(out)] = (out, out.tobytes(), name)
             return out
